@@ -766,6 +766,22 @@ def overrun_evidence(prog, s, ctx):
         if not any(size in (l, r) for l, op, r, _ in facts):
             return 'element %s is read with no test of %s (a shorter container reaches it)' % (In['cv'], size)
         return None
+    # E4: the index is computed from a value just read from the file and nothing compares it (or the
+    # index) with the size of the container: the file chooses the element
+    import codec as _codec
+    for x in f.descendants(s.idx_node):
+        m_ = f.nodes[x]
+        if m_['k'] == 'DeclRefExpr' and m_['decl'].get('dk') == 'local':
+            from paths import local_init
+            ini = local_init(f, m_['decl']['id'])
+            inn = f.nodes[f.strip(ini, 'all')] if ini is not None else None
+            if inn is not None and inn['k'] == 'CXXMemberCallExpr' and inn['callee']['name'] in _codec.READERS and inn['callee'].get('classq') == 'ezc3d::c3d':
+                lname = 'local:' + m_['decl']['name']
+                related = [1 for l, op, r, _ in facts if (lname in l or lname in r or I in (l, r)) and (size in l or size in r)]
+                grown = [c_ for c_ in f.calls() if c_['callee']['name'] in ('resize', 'push_back', 'emplace_back') and c_.get('obj') is not None and uncast(R.render(c_['obj'])) == C]
+                if not related and (not grown or 'abs(' in I):
+                    return 'the index %s is computed from `%s`, read from the file by %s, and nothing compares it with %s%s' % (
+                        I, m_['decl']['name'], inn['callee']['name'], size, ' (for the value 0, abs(%s) - 1 wraps to SIZE_MAX)' % m_['decl']['name'] if 'abs(' in I else '')
     public = (f.rec.get('access') in ('public', None, 'none')) and not f.rec.get('internal') and '(anonymous namespace)' not in f.qname
     if In['k'] == 'DeclRefExpr' and In['decl'].get('dk') == 'param' and public:
         if not any(I in (l, r) for l, op, r, _ in facts):
